@@ -197,6 +197,24 @@ def _exec(mdir, cid, sched):
     return {'cfg': cfg_rec(c), 'ev': ev}
 
 
+def handmade():
+    H = {'op': 'hit', 'k': 0}
+    A = {'op': 'adv'}
+    O = lambda op: {'op': op}
+    return [
+        # the hit that completes a looping counter opens the hit window like any other accepted hit
+        (15, [H, A, A, A, H, H, A, H, A, A, H, A, A, A, H]),
+        (15, [H, A, A, A, H, O('disable'), O('enable'), H, A, A, A, H]),
+        # ... also when the block is restarted / re-enabled right after the completion
+        (4, [H, A, A, H, A, A, H, O('restart'), H, A, A, H]),
+        (6, [O('enable'), H, A, H, O('enable'), H, A, H]),
+        # timeout period restarted by reset / restart / enable inside the running period
+        (5, [H, A, O('reset'), H, A, A, H, A, A, A]),
+        (10, [{'op': 'hit', 'k': 0}, A, A, O('restart'), {'op': 'hit', 'k': 1}, A, A, A, A]),
+        (13, [{'op': 'hit', 'k': 0}, A, O('reset'), {'op': 'hit', 'k': 0}, A, {'op': 'hit', 'k': 1}, A, A]),
+    ]
+
+
 def run(ctx):
     mdir = write_machine(ctx.scratch)
     wd = tlc.prepare(ctx.scratch, 'LogicBlocks', 'logicblocks')
@@ -213,6 +231,7 @@ def run(ctx):
     behs, _ = tlc.simulate(wd, 'LogicBlocksMC', 'Gen.cfg', num=450 if ctx.quick else 8000, depth=28 if ctx.quick else 40,
                            seed=ctx.seed)
     jobs = [(mdir, b[0]['cfg']['id'], [s['act'] for s in b]) for b in behs]
+    jobs += [(mdir, cid, sched) for cid, sched in handmade()]
     traces = harness.pmap(exec_schedule, jobs, chunk=8)
     with open(wd + '/Trace.cfg', 'w') as f:
         f.write("""SPECIFICATION TSpec
